@@ -25,15 +25,36 @@ Fns == {"airtovac", "vactoair"}
 (* how the caller hands over the wavelength(s)                                            *)
 (*   float   Python float            npfloat numpy float64 scalar   array0  0-d ndarray   *)
 (*   q0A/q0nm/q0um  scalar Quantity  array   1-d ndarray            qA/qnm/qum 1-d Quantity *)
-ScalarKinds == {"float", "npfloat", "array0", "q0A", "q0nm", "q0um"}
-ArrayKinds == {"array", "qA", "qnm", "qum"}
+(* "float, array and Quantity input": an array is an array whatever its element type, and *)
+(* an integer-valued wavelength is that wavelength:                                       *)
+(*   pyint Python int   npint / npint32 numpy integer scalars   iarray0 0-d integer array *)
+(*   iarray / iarray32  1-d int64 / int32 arrays      qAi / qnmi  Quantity built from an  *)
+(*   integer array (Angstrom / nm)    npfloat32, f32array  single-precision scalar, array *)
+DoubleScalarKinds == {"float", "npfloat", "array0", "q0A", "q0nm", "q0um"}
+DoubleArrayKinds == {"array", "qA", "qnm", "qum"}
+IntegerKinds == {"pyint", "npint", "npint32", "iarray0", "iarray", "iarray32", "qAi", "qnmi"}
+SingleKinds == {"npfloat32", "f32array"}
+ScalarKinds == DoubleScalarKinds \cup {"pyint", "npint", "npint32", "iarray0", "npfloat32"}
+ArrayKinds == DoubleArrayKinds \cup {"iarray", "iarray32", "qAi", "qnmi", "f32array"}
 Kinds == ScalarKinds \cup ArrayKinds
-QuantityKinds == {"q0A", "q0nm", "q0um", "qA", "qnm", "qum"}
-UnitOf(k) == IF k \in {"q0nm", "qnm"} THEN "nm" ELSE IF k \in {"q0um", "qum"} THEN "um" ELSE "A"
-(* the same calling convention with the wavelength expressed in Angstrom / as a scalar *)
-InAngstrom(k) == IF k \in {"q0A", "q0nm", "q0um"} THEN "q0A" ELSE IF k \in {"qA", "qnm", "qum"} THEN "qA" ELSE k
+QuantityKinds == {"q0A", "q0nm", "q0um", "qA", "qnm", "qum", "qAi", "qnmi"}
+UnitOf(k) == IF k \in {"q0nm", "qnm", "qnmi"} THEN "nm" ELSE IF k \in {"q0um", "qum"} THEN "um" ELSE "A"
+(* the same calling convention with the wavelength expressed in Angstrom / as a scalar /  *)
+(* as a double-precision float                                                            *)
+InAngstrom(k) == IF k \in {"q0A", "q0nm", "q0um"} THEN "q0A" ELSE IF k \in {"qA", "qnm", "qum"} THEN "qA"
+                 ELSE IF k = "qnmi" THEN "qAi" ELSE k
 ScalarOf(k) == IF k = "array" THEN "float" ELSE IF k = "qA" THEN "q0A" ELSE IF k = "qnm" THEN "q0nm"
-               ELSE IF k = "qum" THEN "q0um" ELSE k
+               ELSE IF k = "qum" THEN "q0um" ELSE IF k \in {"iarray", "iarray32"} THEN "pyint"
+               ELSE IF k = "qAi" THEN "q0A" ELSE IF k = "qnmi" THEN "q0nm"
+               ELSE IF k = "f32array" THEN "npfloat32" ELSE k
+DoubleOf(k) == IF k \in {"pyint", "npint", "npint32", "npfloat32"} THEN "float"
+               ELSE IF k = "iarray0" THEN "array0"
+               ELSE IF k \in {"iarray", "iarray32", "f32array"} THEN "array"
+               ELSE IF k = "qAi" THEN "qA" ELSE IF k = "qnmi" THEN "qnm" ELSE k
+(* how closely two answers for the same wavelength must agree: a single-precision INPUT   *)
+(* cannot demand more than single precision (the answer may be computed in either);       *)
+(* integers are exact inputs and get the full tolerance                                    *)
+Precision(k) == IF k \in SingleKinds THEN "single" ELSE "double"
 
 (* position of one wavelength relative to the guard.  "at" = exactly 2000 A when the      *)
 (* caller's unit is Angstrom; for nm / um callers "at" also covers the values that the    *)
@@ -61,6 +82,7 @@ Expected(c) == [raises |-> FALSE,
                 form |-> AnswerForm(c.kind),
                 len |-> Len(c.pat),
                 allowed |-> [p \in DOMAIN c.pat |-> Allowed(c.fn, c.pat[p], c.kind)],
+                precision |-> Precision(c.kind),
                 inputkept |-> TRUE]
 
 (* ---- laws of the dispatch function, evaluated on every enumerated call ---- *)
@@ -85,13 +107,20 @@ UnitIndependent(c) == LET a == [c EXCEPT !.kind = InAngstrom(c.kind)] IN
      /\ Expected(c).form.quantity = Expected(a).form.quantity
      /\ Expected(c).form.scalar = Expected(a).form.scalar
      /\ Expected(c).form.unit = UnitOf(c.kind)
+(* the element type of the input changes nothing: an integer or single-precision wavelength *)
+(* is treated as the double-precision wavelength of the same value (only the attainable     *)
+(* agreement is single precision for single-precision input)                                *)
+ElementTypeIndependent(c) == LET f == [c EXCEPT !.kind = DoubleOf(c.kind)] IN
+     /\ Expected(c).allowed = Expected(f).allowed
+     /\ Expected(c).form = Expected(f).form
+     /\ (c.kind \in IntegerKinds => Expected(c).precision = "double")
 TotalOnDomain(c) == ~Expected(c).raises /\ Expected(c).inputkept /\ Expected(c).len = Len(c.pat)
 
 (* ---- named deviation (what the code does on the unfixed tree) ---- *)
 (* D-C19-1: every 0-dimensional input that has a dtype (numpy scalar, 0-d ndarray, scalar  *)
 (* Quantity) and is not below the guard raises TypeError.                                  *)
 Dev_ZeroDimRaises(c) ==
-  IF c.kind \in (ScalarKinds \ {"float"}) /\ c.pat[1] # "below"
+  IF c.kind \in (ScalarKinds \ {"float", "pyint"}) /\ c.pat[1] # "below"
   THEN [Expected(c) EXCEPT !.raises = TRUE] ELSE Expected(c)
 
 (* ========================= Part 2: AB offsets ========================= *)
@@ -121,7 +150,9 @@ TolUnits == 1000          \* wavelengths: 1 unit = 1e-9 A, stated tolerance 1e-6
 Cap == 1073741824
 
 (* ---- wavelength history ----                                                            *)
-(* H.vals[v]  = [cls]            the real numbers of the history (wavelengths in Angstrom) *)
+(* H.vals[v]  = [cls, mag]       the real numbers of the history (wavelengths in Angstrom);  *)
+(*              mag = the wavelength rounded up to a whole Angstrom (for the single-        *)
+(*              precision tolerance: 2^-23 A = 120 units per Angstrom of wavelength)        *)
 (* H.d[x][y]  = |val y - val x| in units, rounded up (0 iff identical), capped             *)
 (* H.s[x][y]  = sign(val y - val x)  in {-1, 0, 1}                                         *)
 (* H.calls[k] = [fn, kind, arg, res, raised, kept, form]   arg, res: sequences of value ids *)
@@ -131,6 +162,11 @@ RelOf(H, x, y) == IF H.d[x][y] = 0 /\ H.s[x][y] = 0 THEN "identical"
                   ELSE IF H.d[x][y] < TolUnits THEN "equal"
                   ELSE IF H.s[x][y] > 0 THEN "greater" ELSE "less"
 Close(H, x, y) == H.d[x][y] < TolUnits
+SingleUlps == 8           \* single-precision input: agreement to 8 units in the last place of a float32
+CloseSingle(H, x, y) == H.d[x][y] < H.vals[x].mag * 120 * SingleUlps
+(* closeness demanded between answers of calls with kinds k1, k2 *)
+CloseFor(H, k1, k2, x, y) == IF Precision(k1) = "single" \/ Precision(k2) = "single"
+                             THEN Close(H, x, y) \/ CloseSingle(H, x, y) ELSE Close(H, x, y)
 ClsOf(H, v) == H.vals[v].cls
 (* "a >= 2000 A" as far as the caller's unit can tell *)
 AtOrAbove(H, kind, v) == ClsOf(H, v) = "above" \/ (ClsOf(H, v) = "at" /\ UnitOf(kind) = "A")
@@ -152,7 +188,7 @@ AirVacAirInst(H) == {i \in ChainInst(H, "airtovac", "vactoair") : AtOrAbove(H, H
 (* airtovac(vactoair(v)) = v wherever vactoair(v) >= 2000 A *)
 VacAirVacInst(H) == {i \in ChainInst(H, "vactoair", "airtovac") : AtOrAbove(H, H.calls[i[2]].kind, H.calls[i[1]].res[i[3]])}
 ChainSat(H, i) == /\ i[3] \in DOMAIN H.calls[i[2]].res
-                  /\ Close(H, H.calls[i[1]].arg[i[3]], H.calls[i[2]].res[i[3]])
+                  /\ CloseFor(H, H.calls[i[1]].kind, H.calls[i[2]].kind, H.calls[i[1]].arg[i[3]], H.calls[i[2]].res[i[3]])
 
 (* the same wavelength through two calls of the same function (float, array element,      *)
 (* Quantity in any unit) gives the same physical answer.  At the guard only Angstrom      *)
@@ -165,7 +201,7 @@ KindInst(H) ==
       /\ \/ ClsOf(H, H.calls[i[1]].arg[i[3]]) # "at"
          \/ (UnitOf(H.calls[i[1]].kind) = "A" /\ UnitOf(H.calls[i[2]].kind) = "A")}
 KindSat(H, i) == /\ i[3] \in DOMAIN H.calls[i[1]].res /\ i[4] \in DOMAIN H.calls[i[2]].res
-                 /\ Close(H, H.calls[i[1]].res[i[3]], H.calls[i[2]].res[i[4]])
+                 /\ CloseFor(H, H.calls[i[1]].kind, H.calls[i[2]].kind, H.calls[i[1]].res[i[3]], H.calls[i[2]].res[i[4]])
 
 CallSat_NoRaise(H, k) == ~H.calls[k].raised
 CallSat_InputKept(H, k) == H.calls[k].kept
